@@ -153,6 +153,12 @@ def describe(ch, el, nsmap, depth):
                            'flag': None})
     if depth > 0 and ch.p(0.3):
         c['ps'].append(None)   # placeholder filled by caller
+    if ch.p(0.1):
+        sibs = R.elem_siblings(el)
+        pos = [i for i, x in enumerate(sibs, 1) if x is el][0]
+        a_ = ch.i(-2, 3)
+        c['ps'].append({'p': ch.pick(('nth-child', 'nth-last-child')) if ch.p(0.8) else 'nth-of-type', 'a': a_,
+                        'b': pos - a_ * ch.i(0, 2) if ch.p(0.7) else ch.i(0, 4), 'of': None})
     if ch.p(0.12):
         # an HTML-only pseudo-class next to namespace forms: it swaps in soupsieve's private prefix map while it runs
         st = {'p': ch.pick(('checked', 'disabled', 'required', 'any-link', 'link', 'enabled', 'optional', 'read-only'))}
